@@ -204,7 +204,9 @@ impl System for AffSys {
 		let mut exempt = !q.is_defined();
 		// range preservation (non-negative weights)
 		if kind_nonneg(kind) && q.is_defined() {
-			let r = q.r + 4.0 * eps() * n.mag;
+			// (the median only selects, or halves a sum of two: nothing to add in the subnormal range; the
+			// arithmetic kinds may round by a few steps of the subnormal grid)
+			let r = q.r + 4.0 * eps() * n.mag + if kind == "smm" { 0.0 } else { 4.0 * V::MIN_POSITIVE as f64 * eps() };
 			if out < n.lo - r || out > n.hi + r {
 				return Step::Violation(Failure::new(
 					format!("{kind}/range/outside-hull{class}"),
@@ -234,7 +236,9 @@ impl System for AffSys {
 			let want = a * out + b;
 			let mag2 = a.abs() * n.mag + b.abs();
 			let slack = 8.0 * eps() * mag2 + if inexact || true { 16.0 * eps() * mag2 } else { 0.0 };
-			let tol = a.abs() * q.r + q2.r + slack;
+			// in the subnormal range one rounding is an absolute step of the grid, not a relative one
+			let sub_ulp = V::MIN_POSITIVE as f64 * eps();
+			let tol = a.abs() * q.r + q2.r + slack + 8.0 * sub_ulp * (a.abs() + 1.0);
 			if (o2 - want).abs() > tol {
 				return Step::Violation(Failure::new(
 					format!("{kind}/affine/a={a},b={b}{class}"),
@@ -384,10 +388,56 @@ impl System for ImpSys {
 	}
 }
 
+/// builds with a wider PeriodType (sub-run of C20): impulse response of the window kinds at lengths far
+/// beyond 255 (around 2^15 / 2^16 where the period type allows), fed in one go
+fn wide_impulses(h: &mut H) {
+	let sink = VioSink::new("Wide/impulse-response");
+	let pmax = PeriodType::MAX as u64;
+	let lens: Vec<usize> = if pmax > 65535 { vec![300, 32768, 65534, 65535, 65536, 70001] } else { vec![300, 1000, 32767, 32768, 65534] };
+	let mut cases = 0u64;
+	for kind in ["sma", "wma", "swma", "linreg"] {
+		for &n in &lens {
+			cases += 1;
+			let case = format!("{kind}-{n}");
+			let Some(mut imp) = mk(kind, n, 0.0) else {
+				sink.push(&format!("{kind}/wide/not-constructible"), case, "constructor rejected the length".into());
+				continue;
+			};
+			let profile = impulse_profile(kind, n, n + 2);
+			let sumabs: f64 = profile.iter().map(|x| x.abs()).sum::<f64>().max(1.0);
+			let r = catch(|| {
+				let mut worst: Option<(usize, f64, f64)> = None;
+				let _ = imp.next(&In::V(0.0));
+				for k in 0..(n + 2) {
+					let x = if k == 0 { 1.0 } else { 0.0 };
+					let Out::V(o) = imp.next(&In::V(x)) else { return Some((k, f64::NAN, f64::NAN)) };
+					let want = profile.get(k).copied().unwrap_or(0.0);
+					let tol = 64.0 * eps() * (k + n + 8) as f64 * sumabs;
+					if (o as f64 - want).abs() > tol && worst.is_none() {
+						worst = Some((k, o as f64, want));
+					}
+				}
+				worst
+			});
+			match r {
+				Ok(None) => {}
+				Ok(Some((k, o, w))) => sink.push(&format!("{kind}/wide/impulse-response"), case, format!("{k} steps after the impulse: output {o:?}, documented weight {w:?}")),
+				Err(p) => sink.push(&format!("{kind}/wide/panic"), case, format!("panicked at {}: {}", p.at(), p.msg)),
+			}
+		}
+	}
+	h.run.enum_block("window kinds at wide lengths: impulse response vs documented weights", cases, cases.max(2), true, serde_json::json!(format!("{lens:?}")), sink.into_violations());
+}
+
 fn main() {
 	refmodel::set_eps(eps());
 	refmodel::set_floor(ValueType::MIN_POSITIVE as f64);
 	let mut h = H::start("C15");
+	if std::env::var("VERIF_WIDE").is_ok() && (PeriodType::MAX as u64) > 255 {
+		refmodel::set_eps(eps());
+		wide_impulses(&mut h);
+		h.finish();
+	}
 	let thorough = h.thorough();
 	let pmax = PeriodType::MAX as u64;
 	let arith: Vec<V> = alpha::v_arith();
@@ -404,6 +454,15 @@ fn main() {
 		);
 		// both zeros and mixed signs
 		h.go(&AffSys { name: format!("{kind}/affine+range/depth-signed-zeros"), kind, ns: vec![2.max(min), 3.max(min)], v0s: vec![1.0, -0.0], alphabet: vec![0.0, -0.0, -1.0, 1.0], flat: false }, &Limits::depth(if thorough { 7 } else { 6 }).wall_secs(300), true);
+		// subnormal values with odd mantissas (halving them rounds): constants must be reproduced, the hull kept
+		{
+			let sb = |k: u64| V::from_bits(k as _);
+			h.go(
+				&AffSys { name: format!("{kind}/affine+range/depth-subnormals"), kind, ns: vec![1.max(min), 2.max(min), 3.max(min)], v0s: vec![sb(1), sb(3)], alphabet: vec![sb(1), sb(3), 0.0, sb(6)], flat: false },
+				&Limits::depth(if thorough { 6 } else { 4 }).wall_secs(300),
+				true,
+			);
+		}
 		// every length, deviation-bounded
 		let mut ns: Vec<usize> = (min..=maxn).collect();
 		if !thorough {
